@@ -7,9 +7,11 @@ import (
 	"fmt"
 	"math/rand/v2"
 	"reflect"
+	"runtime"
 	"sort"
 	"strings"
 	"sync"
+	"time"
 
 	"github.com/openconfig/gribigo/aft"
 	"github.com/openconfig/gribigo/constants"
@@ -31,9 +33,10 @@ type Step struct {
 }
 
 type RibCfg struct {
-	Fwd   bool
-	Pools *Pools
-	Steps int
+	Resolved bool // register a resolved-entry hook
+	Fwd      bool
+	Pools    *Pools
+	Steps    int
 	// weights
 	WFlush, WAddNI, WHook int
 	DupNH                 bool // allow a group to list a next-hop twice
@@ -310,6 +313,110 @@ func (h *hookRec) drain() []string {
 	return o
 }
 
+// resRec records resolved-entry notifications. Each notification's snapshot is rendered at
+// delivery and kept, so that it can be rendered again at the end of the history to detect
+// later mutation.
+type resRec struct {
+	mu   sync.Mutex
+	evs  []string
+	keep []resKept
+}
+type resKept struct {
+	ribs map[string]*aft.RIB
+	at   string
+}
+
+func renderRIBs(ribs map[string]*aft.RIB) string {
+	nis := []string{}
+	for n := range ribs {
+		nis = append(nis, n)
+	}
+	sort.Strings(nis)
+	var b strings.Builder
+	for _, n := range nis {
+		js, err := ygot.Marshal7951(ribs[n])
+		if err != nil {
+			js = []byte("err:" + err.Error())
+		}
+		fmt.Fprintf(&b, "%s=%s;", n, js)
+	}
+	return b.String()
+}
+
+func (h *resRec) fn(ribs map[string]*aft.RIB, op constants.OpType, ni string, a constants.AFT, key any, _ ...rib.ResolvedDetails) {
+	kind := "add"
+	if op == constants.Delete {
+		kind = "del"
+	}
+	var k MKey
+	has := false
+	afts := ribs[ni].GetAfts()
+	switch a {
+	case constants.IPv4:
+		p, _ := key.(string)
+		k = MKey{Kind: "v4", Str: p}
+		if afts != nil {
+			_, has = afts.Ipv4Entry[p]
+		}
+	case constants.IPv6:
+		p, _ := key.(string)
+		k = MKey{Kind: "v6", Str: p}
+		if afts != nil {
+			_, has = afts.Ipv6Entry[p]
+		}
+	case constants.MPLS:
+		switch v := key.(type) {
+		case uint64:
+			k = MKey{Kind: "mpls", Num: v}
+		case aft.Afts_LabelEntry_Label_Union:
+			if u, ok := v.(aft.UnionUint32); ok {
+				k = MKey{Kind: "mpls", Num: uint64(u)}
+			}
+		}
+		if afts != nil {
+			_, has = afts.LabelEntry[aft.UnionUint32(uint32(k.Num))]
+		}
+	default:
+		k = MKey{Kind: "nh", Num: 0}
+	}
+	h.mu.Lock()
+	defer h.mu.Unlock()
+	h.evs = append(h.evs, fmt.Sprintf("%s %s %s %s", kind, S(ni), k.Enc(), B(has)))
+	h.keep = append(h.keep, resKept{ribs: ribs, at: renderRIBs(ribs)})
+}
+
+// hookGoroutines reports whether some goroutine is (about to be) running the resolved hook.
+func resolvedInFlight() bool {
+	buf := make([]byte, 4<<20)
+	n := runtime.Stack(buf, true)
+	return strings.Contains(string(buf[:n]), "(*resRec).fn")
+}
+
+func (h *resRec) drain() []string {
+	deadline := time.Now().Add(2 * time.Second)
+	for resolvedInFlight() && time.Now().Before(deadline) {
+		time.Sleep(20 * time.Microsecond)
+	}
+	h.mu.Lock()
+	defer h.mu.Unlock()
+	o := h.evs
+	h.evs = nil
+	sort.Strings(o)
+	return o
+}
+
+// stable reports whether every kept snapshot still renders as it did at delivery.
+func (h *resRec) stable() bool {
+	h.mu.Lock()
+	defer h.mu.Unlock()
+	for _, k := range h.keep {
+		if renderRIBs(k.ribs) != k.at {
+			return false
+		}
+	}
+	return true
+}
+
 // encStruct renders a ygot AFT entry struct as "<key> <payload>" or "nil".
 func encStruct(e any) string {
 	if e == nil {
@@ -473,6 +580,11 @@ func RunRibHistory(name string, cfg *RibCfg, steps []Step) (*Trace, error) {
 	}
 	t.Add("rib.new %s fwd=%s", S(cfg.Pools.NIs[0]), B(cfg.Fwd))
 	h := &hookRec{}
+	rr := &resRec{}
+	if cfg.Resolved {
+		r.SetResolvedEntryHook(rr.fn)
+		t.Add("rib.resolvedhook")
+	}
 	for _, s := range steps {
 		crashed := ""
 		func() {
@@ -525,6 +637,17 @@ func RunRibHistory(name string, cfg *RibCfg, steps []Step) (*Trace, error) {
 			line += " | " + e
 		}
 		t.Add("%s", line)
+		if cfg.Resolved {
+			revs := rr.drain()
+			line := fmt.Sprintf("obs.resolved %d", len(revs))
+			for _, e := range revs {
+				line += " | " + e
+			}
+			t.Add("%s", line)
+		}
+	}
+	if cfg.Resolved {
+		t.Add("obs.resolved.stable %s", B(rr.stable()))
 	}
 	t.Add("end")
 	return t, nil
